@@ -59,7 +59,7 @@ func obsEqual(a, b *hx.Obs) string {
 	if !model.EqualSeq(a.Heads, b.Heads) {
 		return "heads differ"
 	}
-	if !model.EqualSeq(a.RawHeads, b.RawHeads) {
+	if !model.EqualAsSets(a.RawHeads, b.RawHeads) {
 		return "raw heads differ"
 	}
 	if !model.EqualSeq(a.Values, b.Values) {
